@@ -95,6 +95,17 @@ pub fn exec(case: &Value, out: &mut Out) {
     if !set_affinity(&cpus[..k]) { eprintln!("TOOL-ERROR sched_setaffinity failed"); std::process::exit(2) }
     let nt = num_cpus::get();
     match mode {
+        "repeat" => {
+            // long inexact vectors: many repetitions under one configuration must give ONE bit pattern (no work stealing, no completion order)
+            let reps = getu(case, "reps").max(2);
+            let mut pats: Vec<u64> = Vec::with_capacity(reps); let mut panic = false;
+            for _ in 0..reps { match guarded(|| x.dot_f64(&y)) { Ok(v) => pats.push(v.to_bits()), Err(_) => panic = true } }
+            let d = guarded(|| x.dot(&y)).unwrap_or(f64::NAN);
+            let first = pats.first().map(|b| f64::from_bits(*b)).unwrap_or(f64::NAN);
+            let mut u = pats.clone(); u.sort(); u.dedup();
+            out.ev(json!({"op": "pardot_r", "cid": cid, "mode": mode, "phase": "repeat", "len": len, "nt": nt, "want": want, "avail": avail, "panic": panic, "reps": reps,
+                          "distinct": u.len(), "r1": bits(first), "d": bits(d), "units": units((first - d).abs(), unit), "uref": units((first - dref).abs(), unit)}));
+        }
         "load" => {
             // first without, then with busy threads competing for the same CPUs: the value must not move
             let r0 = runs(&x, &y);
@@ -192,6 +203,19 @@ pub fn gen(tier: &str, seed: u64, out: &mut Out) {
         for headroom in [1, 3, 5, 9, 17] { for want in [16usize, 3] { for len in [want - 1, want, 64, 1000, 100_000] {
             push(out, json!({"len": len, "want": want, "mode": "scarce", "data": "scarce", "headroom": headroom}));
         } } } }
+    // (i) block sizes and thresholds in the LONG range.  Exact integer data at lengths w * B * k (every worker's slice is exactly k blocks of
+    //     B) and the neighbours -1 / +1, B in {2^j, 3 * 2^j, 5 * 2^j} up to 2^17, k in 1..3, every worker count w: a seeded sample in quick,
+    //     the full grid (total length up to 2^22) in thorough
+    let mut bs: Vec<usize> = vec![]; for jx in 0..=17 { for m in [1usize, 3, 5] { let b = m << jx; if b <= 1 << 17 { bs.push(b); } } }
+    let mut grid: Vec<(usize, usize, usize)> = vec![];
+    for w in 1..=16usize { for b in &bs { for k in 1..=3usize { if w * b * k > 200 && w * b * k <= 1 << 22 { grid.push((w, *b, k)); } } } }
+    if quick { let mut pick = vec![]; for _ in 0..70 { pick.push(grid[rng.gen_range(0..grid.len())]); } grid = pick; grid.retain(|g| g.0 * g.1 * g.2 <= 1 << 20); }
+    for (w, b, k) in grid { for dl in [0i64, -1, 1] { if quick && dl != 0 && rng.gen_bool(0.5) { continue; }
+        push(out, json!({"len": (w * b * k) as i64 + dl, "want": w, "mode": "plain", "data": "int", "two": false, "blk": b, "blkk": k})); } }
+    //     Long inexact vectors repeated 30-50 times at a few worker counts: one single bit pattern
+    let longs: Vec<(usize, usize)> = if quick { vec![(1 << 20, 2), (1 << 20, 16), (1 << 21, 3), (1 << 21, 16), (3 << 20, 7)] }
+                                     else { let mut v = vec![]; for l in [1usize << 20, 1 << 21, 3 << 20] { for w in [2usize, 3, 7, 16] { v.push((l, w)); } } v };
+    for (l, w) in longs { push(out, json!({"len": l, "want": w, "mode": "repeat", "data": "float", "reps": if quick { 30 } else { 50 }})); }
     // (e) random longer vectors up to 10^5
     for i in 0..(if quick { 32 } else { 320 }) {
         let want = 1 + i % 16; let len = if i % 4 == 0 { rng.gen_range(201..=2000) } else { rng.gen_range(2001..=100_000) };
